@@ -29,15 +29,17 @@ from lib.models.verilog_keywords import KEYWORDS, is_legal_identifier
 from props import c02lib as L
 
 LEVEL = "exploration"
-RULE = ("one case = one design generated from a seeded rng as Python source (Module classes nested 1-5 deep, repeated class "
-        "names, attribute / local / name= / anonymous / list / Record / related= signals, name_override and Memory / "
-        "Instance / Record / class names drawn from a per-design working set of 8-16 names of the class's pool, several "
-        "memory ports, instances, IO signals named from back-traces) x tracer shim on/off. Namespace level: the real "
+RULE = ("one case = one design generated from a seeded rng as Python source and exec'd (Module classes nested 1-5 deep, repeated "
+        "class names, attribute / local / name= / anonymous / list / Record / related= signals, name_override and Memory / "
+        "Instance / Record / class / submodule names drawn from a per-design working set of 8-20 names of the class's pool with "
+        "most overrides from one small family, memories with 1-3 ports, instances with in/out/inout pins, tuple attributes, "
+        "1-2 clock domains, IO signals named from back-traces) x tracer shim on/off. Namespace level: the real "
         "build_signal_namespace on the design's signal set, names requested in 6 orders on fresh namespaces with the real "
-        "memory/instance emitters interleaved. Conversion level: the real convert(), declarations parsed from the text and "
-        "matched 1:1 with the namespace. Determinism: 3 fresh processes (PYTHONHASHSEED 0/1/random) x 4 designs, texts "
-        "compared after blanking the two timestamp lines. Non-trivial = >= 5 named objects and at least two objects "
-        "sharing a base name; distinct = distinct case digests")
+        "memory/instance emitters interleaved, every name requested twice. Conversion level: the real convert() (synth or sim comb "
+        "style), declarations parsed from the text and matched 1:1 with the objects of the namespace. Determinism: the same "
+        "script converts 4 designs in 3 fresh processes (PYTHONHASHSEED 0/1/random), texts compared after blanking the two "
+        "timestamp lines; special-outs designs run 4 times (hash seed 0 twice). Non-trivial = >= 5 named objects and at least "
+        "two objects sharing a base name (determinism: texts compared); distinct = distinct case digests")
 ASSUMPTIONS = ["migen tracer shim (names only); every class runs with the shim on and off",
                "legality is judged against lib/models/verilog_keywords.py (independent transcription of IEEE 1364-2005 and "
                "IEEE 1800-2017 Annex B) and the simple-identifier syntax [A-Za-z_][A-Za-z0-9_$]*",
@@ -49,18 +51,18 @@ FLOORS = {"quick": {"names_checked": 2000000, "namespaces_built": 20000, "contra
                     "texts_compared": 250, "fresh_process_runs": 150, "request_orders": 20000, "declarations_matched": 15000,
                     "n_override_kinds": 8, "n_hierarchy_depths": 5, "n_shim": 2, "n_reserved_words_used": 248,
                     "helper_signals_named": 3000, "memories_named": 2000, "instances_named": 2000, "equal_base_name_groups": 3000},
-          "thorough": {"names_checked": 30000000, "namespaces_built": 300000, "contract_evaluations": 60000000, "conversions": 10000,
-                       "texts_compared": 2500, "fresh_process_runs": 1200, "request_orders": 300000, "declarations_matched": 250000,
+          "thorough": {"names_checked": 25000000, "namespaces_built": 250000, "contract_evaluations": 50000000, "conversions": 6000,
+                       "texts_compared": 1800, "fresh_process_runs": 800, "request_orders": 250000, "declarations_matched": 200000,
                        "n_override_kinds": 8, "n_hierarchy_depths": 5, "n_shim": 2, "n_reserved_words_used": 248,
-                       "helper_signals_named": 50000, "memories_named": 30000, "instances_named": 30000,
-                       "equal_base_name_groups": 50000}}
+                       "helper_signals_named": 40000, "memories_named": 30000, "instances_named": 25000,
+                       "equal_base_name_groups": 40000}}
 SHARD_TIMEOUT = {"quick": 900, "thorough": 3000}
 N_SAMPLES = 8
 
 VERIF_ROOT = os.path.dirname(os.path.dirname(os.path.abspath(__file__)))
 PY = "/venv/bin/python"
 SIZES = {"quick": {"ns": 240, "conv": 96, "det": 48, "shards": 8, "det_shards": 16, "detso": 8, "detso_shards": 8},
-         "thorough": {"ns": 4000, "conv": 1600, "det": 400, "shards": 16, "det_shards": 32, "detso": 64, "detso_shards": 16}}
+         "thorough": {"ns": 3000, "conv": 1200, "det": 300, "shards": 16, "det_shards": 32, "detso": 48, "detso_shards": 16}}
 
 
 # the determinism class converts designs of the classes whose conversion is expected to be clean or collide only
